@@ -597,6 +597,16 @@ func TestVerifC10Stress(t *testing.T) {
 	seed := vC10EnvInt("VERIF_SEED", 1)
 	rounds := vC10EnvInt("VERIF_N", 2)
 	var mu sync.Mutex
+	// a sentinel sits behind the finished lines while a configuration runs: if an
+	// engine goroutine panics the process dies and the sentinel is what remains
+	var off int64
+	sentinel := func(kind string) {
+		_ = f.Truncate(off)
+		_, _ = f.Seek(off, 0)
+		b, _ := json.Marshal(map[string]any{"k": kind + "-died", "nontrivial": true, "desc": map[string]any{"config": kind},
+			"go_fail": "the process died while " + kind + " was running: an engine goroutine panicked"})
+		_, _ = f.Write(append(b, '\n'))
+	}
 	emit := func(kind string, st *vC10Stats, extra map[string]any) {
 		desc := map[string]any{"sent": st.sent, "good_replies": st.good, "no_reply_under_load": st.missing, "wrong": st.wrong}
 		for k, v := range extra {
@@ -610,12 +620,17 @@ func TestVerifC10Stress(t *testing.T) {
 		}
 		b, _ := json.Marshal(line)
 		mu.Lock()
-		f.Write(append(b, '\n'))
+		_ = f.Truncate(off)
+		_, _ = f.Seek(off, 0)
+		n, _ := f.Write(append(b, '\n'))
+		off += int64(n)
 		mu.Unlock()
 	}
 
 	stubKinds := []string{"hit", "hit", "hit", "miss", "miss", "lease", "flush", "msg", "mute", "panic", "bad", "big", "short", "qr", "opcode", "counts"}
-	tcpKinds := []string{"hit", "hit", "hit", "miss", "lease", "flush", "msg", "mute", "bad", "big", "qr", "opcode", "counts", "hit", "miss", "panic"}
+	tcpKinds := []string{"hit", "hit", "hit", "miss", "lease", "flush", "msg", "mute", "bad", "big", "qr", "opcode", "counts", "hit", "miss", "hit",
+		"hit", "hit", "hit", "miss", "lease", "flush", "msg", "mute", "bad", "big", "qr", "opcode", "counts", "hit", "miss", "hit",
+		"hit", "hit", "hit", "miss", "lease", "flush", "msg", "mute", "bad", "big", "qr", "opcode", "counts", "hit", "miss", "panic"}
 	chainKinds := []string{"hot", "hot", "hot", "hot", "fresh", "fresh", "uniq", "uniq", "slow", "panic", "mute", "short", "qr", "opcode", "counts"}
 
 	for round := 0; round < rounds; round++ {
@@ -634,6 +649,7 @@ func TestVerifC10Stress(t *testing.T) {
 			{"stress-udp-stub-mixed-readers", false, true, 2, 2, 14, 24, 48},
 			{"stress-udp-stub-inline-mixed-readers", true, true, 1, 1, 8, 24, 48},
 		} {
+			sentinel(uc.name)
 			sh := &vC10StressHandler{inline: uc.inline}
 			var h rawHandler = sh
 			if !uc.inline {
@@ -659,6 +675,7 @@ func TestVerifC10Stress(t *testing.T) {
 			emit(uc.name, st, map[string]any{"workers": uc.workers, "queue": uc.queue, "slab_cap": uc.slabs, "clients": uc.clients})
 		}
 		{
+			sentinel("stress-tcp-stub")
 			sh := &vC10StressHandler{}
 			addr, stop := vC10StartTCP(t, vC10PlainHandler{sh}, 12, 3, 1)
 			st := &vC10Stats{}
@@ -677,6 +694,7 @@ func TestVerifC10Stress(t *testing.T) {
 
 		// ---- B: the real Server and default chain in front of a stand-in resolver
 		{
+			sentinel("stress-chain")
 			witness := &vC10Witness{}
 			middleware.Reset()
 			defaults.RegisterUpTo("resolver")
@@ -708,6 +726,7 @@ func TestVerifC10Stress(t *testing.T) {
 			stopTCP()
 			emit("stress-udp-chain", ust, map[string]any{"inline_ready": s.InlineReady(), "resolver_calls": witness.calls.Load(), "clients": 20})
 			emit("stress-tcp-chain", tst, map[string]any{"clients": 8})
+			_ = f.Truncate(off)
 			middleware.Reset()
 		}
 	}
